@@ -103,6 +103,17 @@ def gen_lattice(rng, interp):
   if rng.random() < 0.2 and dims >= 2:   # tied coordinates (simplex sort ties)
     for x in xs:
       x[1] = x[0] if x[0] <= sizes[1] - 1 else x[1]
+  if dims >= 2 and rng.random() < 0.15:
+    # per-dimension clipping of LIST inputs: mixed sizes and a coordinate above the range of a smaller dimension
+    sizes = [rng.choice([2, 3]) for _ in range(dims)]
+    big = rng.randrange(dims)
+    sizes[big] = 4
+    clip, as_list = True, True
+    for x in xs:
+      for k in range(dims):
+        x[k] = min(x[k], sizes[k] - 1.0) if x[k] >= 0 else x[k]
+      k = rng.choice([j for j in range(dims) if j != big])
+      x[k] = sizes[k] - 1 + rng.choice([0.375, 1.0, 5.0])
   nv = int(np.prod(sizes))
   kernels = [[[_dy(rng, -8, 8, 8) for _ in range(units)] for _ in range(nv)] for _ in range(2)]
   return dict(kind="lattice", interp=interp, sizes=sizes, units=units, clip=clip, as_list=as_list,
